@@ -25,7 +25,7 @@ RULE = ("2 of 3 runs: clock sweep - one bundled tariff x one of the 14 calendar-
         "distinct = (tariff, calendar type, period, start class, day-of-year bucket)")
 PROBES = ["lookups", "near_breakpoint", "season_edge_crossed", "weekday_class_midnight", "year_wrap_crossed", "leap_day",
           "world_runs", "get_prices_start0_later", "get_prices_explicit_start", "demand_charge_query", "energy_cost_checked",
-          "winter_pge"]
+          "winter_pge", "aware_two_zone_lookup", "explicit_tariff_cost_checked"]
 FAULT_DIMENSION = "none - the simulated clock is swept across the calendar (inputs, not faults)"
 REAL_VS_STUB = "real: TimeOfUseTariff + bundled JSON files, Interface.get_prices/get_demand_charge, analysis.energy_cost/demand_charge, Simulator; reference reads the JSON files itself"
 ASSUMPTIONS = ["prices compared exactly (they are copied from the file, never computed)", "costs within 1e-9 relative"]
@@ -183,6 +183,30 @@ def check(sc):
                     break
             if out.viol:
                 break
+    # aware datetimes: the same instants presented in two time zones to the SAME tariff object; each must be priced by its
+    # own wall-clock date and time of day
+    if not out.viol:
+        import zoneinfo
+        za, zb = r.sample(["UTC", "America/Los_Angeles", "Asia/Kolkata", "Europe/London", "Pacific/Chatham"], 2)
+        pts = [start.replace(tzinfo=zoneinfo.ZoneInfo(za)) + dt.timedelta(minutes=period * r.randrange(0, max(1, n))) for _ in range(6)]
+        seq = [(p_, p_.astimezone(zoneinfo.ZoneInfo(zb))) for p_ in pts]
+        for pa, pb in seq:
+            for d in ((pa, pb) if r.random() < 0.5 else (pb, pa)):
+                e, err = expect(out, doc, d, sc["tariff"])
+                if err:
+                    continue
+                try:
+                    g = T.get_tariff(d)
+                except Exception as x:
+                    out.add("C17/lookup_raises", "%s at aware %s: %s: %s" % (sc["tariff"], d.isoformat(), type(x).__name__, str(x)[:100]))
+                    break
+                out.probe("aware_two_zone_lookup")
+                if g != e[0]:
+                    out.add("C17/price_aware_datetime", "%s at %s (same instant also asked as %s): returned %r, file says %r for that date / time of day"
+                            % (sc["tariff"], d.isoformat(), (pb if d is pa else pa).isoformat(), g, e[0]))
+                    break
+            if out.viol:
+                break
     out.probe("near_breakpoint", near)
     if sc["tariff"].startswith("pge") and (start.month >= 11 or start.month <= 4):
         out.probe("winter_pge")
@@ -277,5 +301,31 @@ def check_world(sc):
     e0, _ = expect(out, doc, start, name)
     if e0 and abs(dcv - e0[1] * max(power)) > 1e-9 * max(1.0, abs(dcv)):
         out.add("C17/demand_charge", "%s: demand_charge %r, rate %r x peak power %r" % (name, dcv, e0[1], max(power)))
+    # an explicitly passed tariff takes the place of the simulator's own
+    other = [t for t in TARIFFS if t != name][sc["seed"] % (len(TARIFFS) - 1)]
+    T2, doc2 = tariff_obj(other)
+    try:
+        ec2 = float(analysis.energy_cost(sim, T2))
+        dc2 = float(analysis.demand_charge(sim, T2))
+    except Exception as x:
+        from ..driver import classify_exception
+        if classify_exception(x) == "harness":
+            raise
+        out.add("C17/lookup_raises", "%s (explicit tariff): energy_cost/demand_charge: %s: %s" % (other, type(x).__name__, str(x)[:120]))
+        return out
+    want2 = 0.0
+    for k in range(W):
+        e, err = expect(out, doc2, start + dt.timedelta(minutes=period) * k, other)
+        if err:
+            out.add("C17/ambiguous_or_missing_schedule", "%s %s" % (other, err))
+            return out
+        want2 += e[0] * power[k] * period / 60.0
+    out.probe("explicit_tariff_cost_checked")
+    if abs(ec2 - want2) > 1e-9 * max(1.0, abs(want2)):
+        out.add("C17/energy_cost_explicit_tariff", "energy_cost(sim, %s) = %r on a simulator carrying %s; sum(price x power x dt) with %s is %r"
+                % (other, ec2, name, other, want2))
+    e2, _ = expect(out, doc2, start, other)
+    if e2 and abs(dc2 - e2[1] * max(power)) > 1e-9 * max(1.0, abs(dc2)):
+        out.add("C17/demand_charge_explicit_tariff", "demand_charge(sim, %s) = %r, rate %r x peak power %r" % (other, dc2, e2[1], max(power)))
     out.nontrivial = any(p > 0 for p in power)
     return out
